@@ -725,3 +725,17 @@ pub fn text_set(sigma: &[char], len: usize, ablen: usize) -> Vec<String> {
     }
     ts
 }
+
+/// characters whose UTF-8 lead bytes sit on the boundaries of the length classes
+/// (C2, DF | E0, EF | F0, F4): U+0080, U+07FF, U+0800, U+FFFD, U+10000, U+10FFFF
+pub const EDGE: [char; 6] = ['\u{80}', '\u{7ff}', '\u{800}', '\u{fffd}', '\u{10000}', '\u{10ffff}'];
+
+pub fn edge_texts() -> Vec<String> {
+    let mut t = vec![];
+    for c in EDGE {
+        for shape in ["#", "#a", "a#", "a#a", "##", "#aa", "aa#", "#ab", "a#b", "#a#"] {
+            t.push(shape.replace('#', &c.to_string()));
+        }
+    }
+    t
+}
